@@ -28,3 +28,8 @@ func VerifC20Diff(device, spoc []byte) (int, string) {
 	}
 	return len(diffConfig(c1.(*NsxConfig), c2.(*NsxConfig))), ""
 }
+
+// VerifC20RemoveHeader calls removeHeader.
+func VerifC20RemoveHeader(data []byte) []byte {
+	return removeHeader(data)
+}
